@@ -148,6 +148,7 @@ type gen struct {
 	text   string
 	n      int
 	noExcl bool // leave read-only / create-only fields of Ent unset (C02); set them (C07 wire level) otherwise
+	sparse bool // leave every optional member of a *Params struct unset: the query string is then empty
 }
 
 func (g *gen) next() int { g.n++; return g.n }
@@ -221,6 +222,9 @@ func (g *gen) fill(v reflect.Value, path string) {
 		for i := 0; i < t.NumField(); i++ {
 			f := t.Field(i)
 			if !f.IsExported() {
+				continue
+			}
+			if g.sparse && strings.HasSuffix(name, "Params") && (f.Type.Kind() == reflect.Ptr || f.Type.Kind() == reflect.Slice || f.Type.Kind() == reflect.Map) {
 				continue
 			}
 			sub := base + "." + f.Name
@@ -502,6 +506,7 @@ func main() {
 		argGen := &gen{text: text, noExcl: true}
 		currentResource = row.Node
 		batchMode = (row.Cfg.Text + row.Cfg.Threshold) % 3
+		argGen.sparse = batchMode == 1 // one configuration in three: every optional parameter left unset
 		var args []reflect.Value
 		for i := 0; i < m.Type().NumIn(); i++ {
 			args = append(args, argGen.value(m.Type().In(i), ""))
@@ -623,8 +628,12 @@ func main() {
 		if len(segs) != len(row.Wire.Path) {
 			violation("C02/wire/path-shape/"+feat, fmt.Sprintf("wire path %q has %d segments, specified shape %v", rec.path, len(segs), row.Wire.Path), cs)
 		}
-		if rec.status != row.Status && !(row.Method == "partial_update" && rec.status == 200) {
-			violation("C02/wire/status/"+feat, fmt.Sprintf("status %d, the protocol's default for %s is %d", rec.status, row.Method, row.Status), cs)
+		wantStatus := row.Status
+		if row.Method == "create" && batchMode == 2 {
+			wantStatus = 202 // the implementation overrode it (scripted)
+		}
+		if rec.status != wantStatus && !(row.Method == "partial_update" && rec.status == 200) {
+			violation("C02/wire/status/"+feat, fmt.Sprintf("status %d, expected %d (the protocol's default for %s, or what the implementation set)", rec.status, wantStatus, row.Method), cs)
 		}
 		if rec.errHdr {
 			violation("C02/wire/error-header-on-success/"+feat, "a successful call carries the error header", cs)
@@ -716,6 +725,9 @@ func scripted(g *gen, t reflect.Type, args []reflect.Value) reflect.Value {
 		case reflect.Struct:
 			if f := v.FieldByName("Status"); f.IsValid() && f.Kind() == reflect.Int && strings.Contains(v.Type().Name(), "Created") {
 				f.SetInt(0)
+				if batchMode == 2 {
+					f.SetInt(202) // the implementation overrides the default status of a create
+				}
 			}
 			if f := v.FieldByName("CreatedEntity"); f.IsValid() {
 				zero(f)
